@@ -22,8 +22,14 @@ cp "$D/demo.py" "$C/demo.py"
 if grep -q "c_rain.c" "$D/patch.diff"; then ( cd "$C" && /venv/bin/python setup.py build_ext --inplace > /dev/null 2>&1 ); fi
 ( cd "$C" && timeout 900 /venv/bin/python demo.py > "$D/demo_with.log" 2>&1 ); rc1=$?
 if [ -n "${REUSE_TESTLOG:-}" ] && [ -s "$D/tests_with.log" ]; then :; else
-( cd "$C" && timeout 3000 /venv/bin/python -m pytest -q -p no:cacheprovider --timeout=900 pyyeti/tests 2>&1 | tail -30 > "$D/tests_with.log" )
+# (the suite takes 1-10 minutes depending on load; a parallel srs test occasionally dead-locks in fork under load:
+# an incomplete run is repeated, and never counts as a confirmation)
+for attempt in 1 2 3; do
+( cd "$C" && timeout 1500 /venv/bin/python -m pytest -q -p no:cacheprovider --timeout=900 pyyeti/tests 2>&1 | tail -30 > "$D/tests_with.log" )
+grep -q " passed" "$D/tests_with.log" && break
+done
 fi
+grep -q " passed" "$D/tests_with.log" || echo "FAILED INCOMPLETE-TEST-RUN::no_summary_line" >> "$D/tests_with.log"
 fails=$(grep "^FAILED\|^ERROR" "$D/tests_with.log" | awk "{print \$2}" | sort)
 allow="test_cbcoordchk test_cbcoordchk3 test_PSD_consistent test_transfer_orbit_cla test_era test_replace_basic_cs test_replace_basic_cs_2 test_uset2bulk test_wtrspline_rings test_newmark_nonlinear2 test_newmark_nonlinear3 test_solveunc_cd_as_force test_sparse_write test_area test_psd2time test_ksingle"
 newfail=""
@@ -37,7 +43,19 @@ case "$newfail" in *test_cbcheck_determinate*)
     fi
   done;;
 esac
-summary=$(tail -1 "$D/tests_with.log")
+# any other new failure is re-run on its own: a failure caused by the change is deterministic; tests that draw
+# unseeded random data (test_fdepsd_pvelo, test_fdepsd_absacce, ...) fail a few per cent of the time on any tree.
+# It is dropped from the list only if it passes three times in a row.
+still=""
+for f in $newfail; do
+  ok=0
+  for i in 1 2 3; do
+    if ( cd "$C" && /venv/bin/python -m pytest -q -p no:cacheprovider "$f" > /dev/null 2>&1 ); then ok=$((ok+1)); fi
+  done
+  if [ $ok -eq 3 ]; then echo "(flaky $f passed 3 of 3 re-runs on its own)" >> "$D/tests_with.log"; else still="$still $f"; fi
+done
+newfail=$still
+summary=$(grep -m1 "passed\|failed" <(tac "$D/tests_with.log") )
 /venv/bin/python - "$D" "$ID" "$rc0" "$rc1" "$newfail" "$summary" <<'PY'
 import json, sys, os
 D, ID, rc0, rc1, newfail, summary = sys.argv[1:7]
